@@ -10,6 +10,7 @@ package dnssvc_test
 import (
 	"context"
 	"encoding/hex"
+	"errors"
 	"fmt"
 	"log/slog"
 	"net"
@@ -56,7 +57,59 @@ const (
 
 var vc07CatNames = map[string]int{"ads": vc07CatAds, "trk": vc07CatTrk, "rw": vc07CatRw, "cn": vc07CatCn, "al": vc07CatAl, "rb": vc07CatRb, "sb": vc07CatSb, "ok": 0}
 
-var vc07CatList = []string{"ads", "trk", "rw", "cn", "al", "rb", "sb", "ok"}
+// vc07CatList are the category labels of generated names.  A label may join
+// several categories with "-": one name then triggers a request-stage and a
+// response-stage rule (or an allow and a block rule) of the same profile.
+// "err" names make the upstream fail.
+var vc07CatList = []string{"ads", "trk", "rw", "cn", "al", "rb", "sb", "ok", "al-rb", "cn-rb", "rw-rb", "al-ads", "sb-rb", "err"}
+
+// vc07CatBits returns the categories of a label.
+func vc07CatBits(label string) (bits int) {
+	for _, c := range strings.Split(label, "-") {
+		bits |= vc07CatNames[c]
+	}
+
+	return bits
+}
+
+// vc07InScheme reports whether name is a generated k<kind>t<ttl>.<cat>.<scope>.test. name; other
+// names (the root, one-letter names) are plain names without a category.
+func vc07InScheme(name string) bool {
+	var k, ti int
+	n, _ := fmt.Sscanf(strings.ToLower(name), "k%dt%d.", &k, &ti)
+
+	return n == 2 && len(strings.Split(name, ".")) >= 5
+}
+
+// vc07Decide is the world's rule table: what profile pi does with a question.
+// Request stage, in this order: allow, block, rewrite to an address, CNAME
+// rewrite, safe browsing; if none applies, the response stage may block.
+func vc07Decide(pi int, name string, qt uint16) (verdict string) {
+	p := vc07Profiles[pi]
+	if !p.Filtering {
+		return "pass"
+	}
+
+	cat, _ := vc07CatOf(name)
+	bits := vc07CatBits(cat) & p.Policy
+	isIP := qt == dns.TypeA || qt == dns.TypeAAAA
+	switch {
+	case bits&vc07CatAl != 0:
+		return "allowed"
+	case bits&(vc07CatAds|vc07CatTrk) != 0:
+		return "blocked"
+	case bits&vc07CatRw != 0 && isIP:
+		return "rewritten"
+	case bits&vc07CatCn != 0:
+		return "cname"
+	case bits&vc07CatSb != 0 && (isIP || qt == dns.TypeHTTPS):
+		return "safe-browsing"
+	case bits&vc07CatRb != 0:
+		return "resp-blocked"
+	default:
+		return "pass"
+	}
+}
 
 // vc07Profile describes a profile (index 0 is the anonymous filtering group).
 type vc07Profile struct {
@@ -110,10 +163,11 @@ var vc07Profiles = []*vc07Profile{
 
 // vc07CatOf returns the category of a generated name k<kind>t<ttl>.<cat>.<scope>.test.
 func vc07CatOf(name string) (cat string, scoped bool) {
-	parts := strings.Split(strings.ToLower(name), ".")
-	if len(parts) < 4 {
+	if !vc07InScheme(name) {
 		return "ok", false
 	}
+
+	parts := strings.Split(strings.ToLower(name), ".")
 
 	return parts[1], parts[2] == "s"
 }
@@ -197,10 +251,12 @@ type vc07Client struct {
 	Remote  netip.Addr
 	ECS     string
 	ECSBits int
+	// ECS2, if set, is a second client-subnet option after the first (/24).
+	ECS2 string
 }
 
 func (c vc07Client) String() string {
-	return fmt.Sprintf("{%s p%d/d%d %s ecs=%s/%d}", c.Via, c.Prof, c.Dev, c.Remote, c.ECS, c.ECSBits)
+	return fmt.Sprintf("{%s p%d/d%d %s ecs=%s/%d ecs2=%s}", c.Via, c.Prof, c.Dev, c.Remote, c.ECS, c.ECSBits, c.ECS2)
 }
 
 func (c vc07Client) device() *vc07Device {
@@ -226,6 +282,15 @@ type vc07Req struct {
 	EDNS   bool
 	Z      uint16
 	Cookie bool
+	// MsgID is the DNS message ID (0 and 65535 included).
+	MsgID uint16
+	// Cancel: the caller's context is already cancelled when the request is
+	// served.
+	Cancel bool
+	// NearMissOf is the number of the request this one copies with one
+	// component changed, and what was changed.
+	NearMissOf int
+	Changed    string
 	// Yield is the number of scheduler yields before the request is sent in
 	// the concurrent run.
 	Yield int
@@ -235,14 +300,19 @@ type vc07Req struct {
 }
 
 func (r *vc07Req) String() string {
-	return fmt.Sprintf("#%d s%d %s %q %s dbg=%t do=%t ad=%t cd=%t rd=%t edns=%t z=%#x cookie=%t yield=%d",
-		r.N, r.Stream, r.Client, r.Name, dns.Type(r.QType), r.Debug, r.DO, r.AD, r.CD, r.RD, r.EDNS, r.Z, r.Cookie, r.Yield)
+	near := ""
+	if r.NearMissOf > 0 {
+		near = fmt.Sprintf(" near-miss-of=#%d(%s)", r.NearMissOf, r.Changed)
+	}
+
+	return fmt.Sprintf("#%d s%d %s %q %s id=%d dbg=%t do=%t ad=%t cd=%t rd=%t edns=%t z=%#x cookie=%t cancel=%t yield=%d%s",
+		r.N, r.Stream, r.Client, r.Name, dns.Type(r.QType), r.MsgID, r.Debug, r.DO, r.AD, r.CD, r.RD, r.EDNS, r.Z, r.Cookie, r.Cancel, r.Yield, near)
 }
 
 // build renders the request through the wire, as the server receives it.
 func (r *vc07Req) build() {
 	m := &dns.Msg{}
-	m.Id = uint16(1000 + r.N)
+	m.Id = r.MsgID
 	m.RecursionDesired = r.RD
 	m.AuthenticatedData = r.AD
 	m.CheckingDisabled = r.CD
@@ -274,6 +344,9 @@ func (r *vc07Req) build() {
 			}
 
 			opt.Option = append(opt.Option, &dns.EDNS0_SUBNET{Code: dns.EDNS0SUBNET, Family: fam, SourceNetmask: uint8(c.ECSBits), Address: a.AsSlice()})
+			if c.ECS2 != "" {
+				opt.Option = append(opt.Option, &dns.EDNS0_SUBNET{Code: dns.EDNS0SUBNET, Family: 1, SourceNetmask: 24, Address: netip.MustParseAddr(c.ECS2).AsSlice()})
+			}
 		}
 	}
 
@@ -311,7 +384,12 @@ func (u *vc07Upstream) ServeDNS(ctx context.Context, rw dnsserver.ResponseWriter
 	u.st.checkCtx(ctx, "upstream", req)
 
 	q := req.Question[0]
-	_, scoped := vc07CatOf(q.Name)
+	cat, scoped := vc07CatOf(q.Name)
+	if cat == "err" {
+		// A processing fault in the middle of other requests.
+		return errors.New("vc07 upstream: connection reset")
+	}
+
 	e := vdns.ECSOpt(req)
 	tag := ""
 	if scoped {
@@ -319,9 +397,12 @@ func (u *vc07Upstream) ServeDNS(ctx context.Context, rw dnsserver.ResponseWriter
 	}
 
 	var resp *dns.Msg
-	if q.Qtype == dns.TypeHTTPS {
+	switch {
+	case q.Qtype == dns.TypeHTTPS:
 		resp = vc07HTTPSAnswer(req, tag, u.st.conf.known)
-	} else {
+	case !vc07InScheme(q.Name):
+		resp = vc07PlainAnswer(req)
+	default:
 		resp = vdns.Answer(req, tag, true)
 	}
 
@@ -353,11 +434,38 @@ func (u *vc07Upstream) ServeDNS(ctx context.Context, rw dnsserver.ResponseWriter
 	return rw.WriteMsg(ctx, req, decoded)
 }
 
+// vc07PlainAnswer is the upstream's answer for names outside the generated
+// scheme (the root, one-letter names).
+func vc07PlainAnswer(req *dns.Msg) (resp *dns.Msg) {
+	q := req.Question[0]
+	resp = (&dns.Msg{}).SetReply(req)
+	resp.RecursionAvailable = true
+	hdr := dns.RR_Header{Name: q.Name, Rrtype: q.Qtype, Class: dns.ClassINET, Ttl: 300}
+	switch q.Qtype {
+	case dns.TypeA:
+		resp.Answer = []dns.RR{&dns.A{Hdr: hdr, A: net.IP{10, 1, 1, byte(len(q.Name))}}}
+	case dns.TypeAAAA:
+		resp.Answer = []dns.RR{&dns.AAAA{Hdr: hdr, AAAA: net.ParseIP("2001:db8:1::1")}}
+	default:
+		resp.Answer = []dns.RR{&dns.TXT{Hdr: hdr, Txt: []string{"plain", strings.ToLower(q.Name)}}}
+	}
+
+	if opt := req.IsEdns0(); opt != nil {
+		resp.SetEdns0(1232, opt.Do())
+	}
+
+	return resp
+}
+
 // vc07HTTPSAnswer is the upstream's answer to an HTTPS question: a service
 // record with hints derived from the name (and the subnet, for scoped names).
 func vc07HTTPSAnswer(req *dns.Msg, tag string, known func(string) bool) (resp *dns.Msg) {
 	q := req.Question[0]
-	kind, ttl := vdns.KindOf(q.Name)
+	kind, ttl := vdns.KA, uint32(300)
+	if vc07InScheme(q.Name) {
+		kind, ttl = vdns.KindOf(q.Name)
+	}
+
 	h := vdns.Hash(vdns.QKey(q, false) + "|" + tag)
 	resp = (&dns.Msg{}).SetReply(req)
 	resp.RecursionAvailable = true
@@ -425,37 +533,30 @@ func (f *vc07Filter) FilterRequest(ctx context.Context, req *filter.Request) (r 
 	}
 
 	cat, _ := vc07CatOf(q.Name)
-	bit := vc07CatNames[cat]
-	if bit == 0 || p.Policy&bit == 0 || bit == vc07CatRb {
-		return nil, nil
-	}
-
 	list, rule := filter.ID("vc07_"+p.ID), vc07RuleText(cat, p.ID)
-	switch bit {
-	case vc07CatSb:
+	switch vc07Decide(f.pi, q.Name, q.Qtype) {
+	case "safe-browsing":
 		// The real hash-prefix filter with its result cache, shared by every
 		// profile that enables it.
 		return st.hashFlt.FilterRequest(ctx, req)
-	case vc07CatAds, vc07CatTrk:
+	case "blocked":
 		return &filter.ResultBlocked{List: list, Rule: rule}, nil
-	case vc07CatAl:
+	case "allowed":
 		return &filter.ResultAllowed{List: list, Rule: rule}, nil
-	case vc07CatRw:
-		if q.Qtype != dns.TypeA && q.Qtype != dns.TypeAAAA {
-			return nil, nil
-		}
-
+	case "rewritten":
 		resp, rerr := req.Messages.NewRespIP(req.DNS, vc07RwIP(f.pi, q.Qtype))
 		if rerr != nil {
 			return nil, rerr
 		}
 
 		return &filter.ResultModifiedResponse{Msg: resp, List: list, Rule: rule}, nil
-	default:
+	case "cname":
 		mod := dnsmsg.Clone(req.DNS)
 		mod.Question[0].Name = vc07CnTarget(f.pi)
 
 		return &filter.ResultModifiedRequest{Msg: mod, List: list, Rule: rule}, nil
+	default:
+		return nil, nil
 	}
 }
 
@@ -475,7 +576,7 @@ func (f *vc07Filter) FilterResponse(ctx context.Context, resp *filter.Response) 
 	}
 
 	cat, _ := vc07CatOf(q.Name)
-	if cat == "rb" && p.Policy&vc07CatRb != 0 {
+	if vc07Decide(f.pi, q.Name, q.Qtype) == "resp-blocked" {
 		return &filter.ResultBlocked{List: filter.ID("vc07_" + p.ID), Rule: vc07RuleText(cat, p.ID)}, nil
 	}
 
@@ -655,7 +756,7 @@ func vc07NewStack(conf vc07StackConf, expect map[agd.RequestID]*vc07Req) (st *vc
 	}
 	st.up = &vc07Upstream{st: st}
 
-	hashes, err := hashprefix.NewStorage("sb.u.test\nsb.s.test\n")
+	hashes, err := hashprefix.NewStorage("sb.u.test\nsb.s.test\nsb-rb.u.test\nsb-rb.s.test\n")
 	if err != nil {
 		panic(fmt.Errorf("VERIF-INCONCLUSIVE: hashprefix storage: %v", err))
 	}
@@ -1004,6 +1105,11 @@ func (st *vc07Stack) serve(r *vc07Req) (out vc07Outcome) {
 	ctx = dnsserver.ContextWithServerInfo(ctx, &dnsserver.ServerInfo{Name: srvName, Addr: laddr.String(), Proto: map[string]dnsserver.Protocol{vc07SrvDNS: dnsserver.ProtoDNS, vc07SrvDoT: dnsserver.ProtoDoT}[srvName]})
 	ctx = dnsserver.ContextWithRequestInfo(ctx, &dnsserver.RequestInfo{StartTime: time.Now(), TLSServerName: sni})
 	ctx = agd.WithRequestID(ctx, r.ID)
+	if r.Cancel {
+		var cancel context.CancelFunc
+		ctx, cancel = context.WithCancel(ctx)
+		cancel()
+	}
 
 	rw := &vc07RW{
 		local:  net.TCPAddrFromAddrPort(laddr),
